@@ -70,6 +70,17 @@ class Shard:
             self.counters[k] = self.counters.get(k, 0) + v
         h = case_hash(info.key if info.key is not None else case)
         self.allcases.add(h)
+        if info.units:
+            self.counters["unit_checks"] = self.counters.get("unit_checks", 0) + len(info.units)
+            for ukey, unt in info.units:
+                if unt:
+                    self.nontrivial.add(case_hash(ukey))
+            if any(unt for _, unt in info.units) and len(self.samples) < 4 and h not in self.nontrivial:
+                s = {"case": jsonable(case), "labels": list(info.labels)}
+                if info.sample is not None:
+                    s["observed"] = jsonable(info.sample)
+                self.samples.append(s)
+            return
         if info.nontrivial:
             if h not in self.nontrivial:
                 self.nontrivial.add(h)
